@@ -98,3 +98,6 @@ proof fn lemma_abs_entries_append<'a>(a: Seq<PendingEntry<'a>>, b: Seq<PendingEn
     ensures abs_entries(a + b) =~= abs_entries(a) + abs_entries(b),
 {
 }
+
+/// scalar_is_nullish as a function of text and style (its table is std string comparison, not interpreted here)
+uninterp spec fn spec_nullish(value: Seq<char>, style: ScalarStyle) -> bool;
